@@ -152,12 +152,32 @@ type simschedState struct {
 	spinSleeps uint64 // virtual-time sleeps injected into spinning runs
 	spinLevel  uint32
 	spinEnd    int64
+	traceOn    bool   // record the call stack of every yield site (debugging)
+	ntrace     uint32
 	ndec       uint32 // decisions recorded / consumed
 	nplay      uint32 // decisions available for playback
 	dec        [simMaxDec]uint8
 }
 
 var simsched simschedState
+
+const simTraceMax = 1 << 19
+
+// simTrace holds, for the first simTraceMax yield sites of a run, four return
+// PCs of the goroutine that reached the site (debugging aid for determinism
+// hunts: dump it in two processes and diff).
+var simTrace [simTraceMax][4]uintptr
+
+//go:linkname simSetSiteTrace
+func simSetSiteTrace(on bool) { simsched.traceOn = on }
+
+//go:linkname simGetSiteTrace
+func simGetSiteTrace(i uint32) (pcs [4]uintptr, ok bool) {
+	if i >= simsched.ntrace {
+		return pcs, false
+	}
+	return simTrace[i], true
+}
 
 //go:nosplit
 func simNext(s *uint64) uint64 {
@@ -245,6 +265,7 @@ func simEnable(schedSeed, auxSeed uint64, yieldThr uint32) {
 	simsched.spinSites, simsched.spinNow, simsched.spinSleeps = 0, -1, 0
 	simsched.spinLevel, simsched.spinEnd = 0, -1
 	simsched.ndec = 0
+	simsched.ntrace = 0
 	simsched.over = false
 	// Drop any preemption request raised against this goroutine before
 	// the simulation took over, so that it cannot land inside the run.
@@ -345,6 +366,12 @@ func simYield() {
 		return
 	}
 	simsched.yieldSites++
+	if simsched.traceOn && simsched.ntrace < simTraceMax {
+		var pcs [4]uintptr
+		callers(2, pcs[:])
+		simTrace[simsched.ntrace] = pcs
+		simsched.ntrace++
+	}
 	// Virtual time only moves when every goroutine of the bubble is blocked, so
 	// a goroutine that busy-retries while waiting for something that needs
 	// time to pass (e.g. bytes in flight on the simulated network) would spin
